@@ -312,6 +312,34 @@ def minor_version_edit_histories():
                 yield {"family": "minor-version-edits", "where": where, "op": op, "a": i, "b": j, "c": i, "same_dir": True}, [step(where, i, op), step(where, j, op), step(where, i, op)]
 
 
+# The SAME tree read again and again in one process (nothing changes on disk): definitions stored under the legacy extension take
+# part in violations, are referred to, or are simply present
+LEGACY_TREES = [
+    {"qqa/X.1.0.uavcan": "uint8 a\n@sealed\n", "qqa/X.1.1.dsdl": "uint8 a\n@extent 64\n"},                      # sealing differs
+    {"qqa/6200.X.1.0.uavcan": "uint8 a\n@sealed\n", "qqa/6200.Y.1.0.dsdl": "uint8 a\n@sealed\n"},              # port collision
+    {"qqa/6200.X.1.0.dsdl": "uint8 a\n@sealed\n", "qqa/X.1.1.uavcan": "uint8 a\n@sealed\n"},                   # port-ID removed by the legacy file
+    {"qqa/X.1.0.uavcan": "uint8 a\n@sealed\n", "qqa/User.1.0.dsdl": "X.1.0 x\n@sealed\n"},                      # valid: legacy dependency
+    {"qql/X.1.0.uavcan": "uint8 a\n@sealed\n", "qqa/User.1.0.dsdl": "qql.X.1.0 x\n@sealed\n"},                  # valid: legacy dependency in a lookup root
+    {"qql/X.1.0.uavcan": "uint8 a\n@sealed\n", "qql/X.1.1.uavcan": "uint16 a\n@sealed\n", "qqa/User.1.0.dsdl": "qql.X.1.0 x\nqql.X.1.1 y\n@sealed\n"},  # violation between two legacy dependencies
+    {"qqa/s/Deep.1.0.uavcan": "@sealed\n", "qqa/Plain.1.0.dsdl": "@sealed\n"},                                     # valid: nested legacy file
+]
+
+
+def legacy_repeat_histories():
+    def st(tree, op):
+        d = {"files": tree, "op": op, "root": "qqa", "lookups": ["qql"]}
+        if op == "rf":
+            d["targets"] = [sorted(k for k in tree if k.startswith("qqa/"))[-1]]
+        return d
+
+    for i, tree in enumerate(LEGACY_TREES):
+        for ops in (("rn", "rn"), ("rn", "rn", "rn"), ("rf", "rn"), ("rn", "rf"), ("rf", "rf")):
+            yield {"family": "legacy-repeats", "tree": i, "ops": list(ops), "same_dir": True}, [st(tree, o) for o in ops]
+    for i, j in itertools.permutations(range(len(LEGACY_TREES)), 2):
+        if i < 3 or j < 3:
+            yield {"family": "legacy-repeats", "tree": i, "then": j, "same_dir": True}, [st(LEGACY_TREES[i], "rn"), st(LEGACY_TREES[j], "rn"), st(LEGACY_TREES[i], "rn")]
+
+
 # One list object of lookup directories handed to several calls with different roots (an application that keeps its lookup list)
 def shared_argument_histories():
     files = {"qqa/A.1.0.dsdl": "uint8 a\n@sealed\n", "qqb/B.1.0.dsdl": "qqa.A.1.0 a\n@sealed\n", "qqb/C.1.0.dsdl": "qql.L.1.0 l\n@sealed\n", "qql/L.1.0.dsdl": "@sealed\n", "qqa/D.1.0.dsdl": "qqb.C.1.0 c\n@sealed\n"}
@@ -351,6 +379,7 @@ FAMILIES = {
     "shared-arguments": shared_argument_histories,
     "minor-versions": minor_version_histories,
     "doc-faults": doc_fault_histories,
+    "legacy-repeats": legacy_repeat_histories,
     "minor-version-edits": minor_version_edit_histories,
     "nested-revisions": nested_revision_histories,
     "faults": fault_histories,
